@@ -62,6 +62,8 @@ def run_prog(exe, path, specs, calls, opt=2, timeout=300):
     return [canon(j) for j in joined[:len(lines)]]
 
 
+C01_SITES = {'target_translate', 'out_insn', 'get_label_disp', 'get_bb_version', 'jump_opt', 'DLIST_bb_version_t_append',
+             'VARR_target_bb_version_tpush'}
 GEN_FAILED = 'CRASH:gen:'   # the generator itself died while generating (see harness/c03_prog.h): C01's subject
 
 
@@ -157,15 +159,15 @@ def shrink_prog(exe, text, specs2, calls, opt, site=None):
 # ---------------------------------------------------------------- run
 
 def one_program(chk, exe, rng, k, quick):
-    # Optimisation level.  What differs between the interfaces at -O2/-O3 (bb versions of optimised CFGs, thunk
-    # redirection after long generations, direct-call rewriting) is exercised on programs WITHOUT laddr/lref/jmpi:
-    # on those the optimiser is stable today (census of 60 seeds x 10 programs x {-O2,-O3} x 8-9 interface runs on
-    # HEAD 6b4b01d0: no generator death, no disagreement).  With jmpi in the program it still dies / miscompiles in
-    # ~8% + 2.5% of programs (C01 known findings jmpi-edge-split, laddr-of-label-after-ret: use-after-free of a
-    # label deleted by jump_opt, seen as get_label_disp / get_bb_version / out_insn / target_translate deaths), so
-    # programs with label addresses run at -O0/-O1 and the fixed -O2 defects are replayed from the corpus.
+    # Optimisation level: every program runs at one of -O0..-O3 (census on HEAD 78890ed8, after C01-16: 60 seeds x
+    # 10 programs x {-O2,-O3} x 8-9 interface runs: no value disagreement, no run-time crash).  What remains at
+    # -O2/-O3 on programs WITH label addresses are generator deaths owned by C01 (5-6% of programs): known:
+    # jmpi-edge-split ("matching insn jmpi": target_translate, out_insn under lazy-bb) and the use-after-free of a
+    # label deleted by remove_unreachable_bbs (get_label_disp / get_bb_version / jump_opt).  For such programs a death
+    # at exactly those sites is counted in the evidence (c01_owned_generator_death) and not reported here; any other
+    # death, and every death on a program without label addresses or at -O0/-O1, is a finding of its own.
     opt = rng.choice([0, 1, 1, 2, 3])
-    prog = G.gen_program(rng, feats=FEATS if opt < 2 else FEATS - {'laddr', 'lref'})
+    prog = G.gen_program(rng, feats=FEATS)
     path = write_prog(prog['text'], 'p')
     ents = prog['entries']
     ncalls = rng.randint(2, 6)
@@ -194,7 +196,10 @@ def one_program(chk, exe, rng, k, quick):
             if GEN_FAILED in o:
                 site = death_site(o)
                 chk.dist('generator_died_in', site)
-                deaths.append((site, prog, [specs[0], s], cs, opt))
+                if opt >= 2 and site in C01_SITES and any(ft in prog['features'] for ft in ('laddr', 'lref', 'lref_diff')):
+                    chk.dist('c01_owned_generator_death', site)
+                else:
+                    deaths.append((site, prog, [specs[0], s], cs, opt))
         d = disagree(outs)
         if d is not None:
             # a program whose reference run is not reproducible says nothing about the interfaces
